@@ -55,6 +55,13 @@ CHECKS['C11'] = dict(
     design_ref='DESIGN.md section 3 C11',
     note='dict backend; tolerances listed in DESIGN C11 (SUBSCRIBE of a missing name OK or NO, trailing-delimiter CREATE, DELETE with inferiors, RENAME of/onto a \\Noselect placeholder, names with empty components outside the model); two recorded known findings about LSUB',
     technique='explicit-state model checking of the implementation (two-level) against a reference namespace model')
+CHECKS['C13'] = dict(
+    engine='E8 bounded-exhaustive enumeration (vf/checks/c13.py)',
+    category='exploration',
+    text='Complete enumeration of search programs over 74 atoms (every supported key with boundary arguments: dates on/adjacent to message dates incl. near-midnight time zones, sizes |m|-1,|m|,|m|+1, strings in header only / body only / both / neither / other case / empty, present-but-empty and absent headers, keywords, sequence sets 1, 2:1, *, 1:*, 9, 2,4, 4:*, UID sets incl. expunged and out-of-range UIDs): a, NOT a, NOT NOT a, (a), and for every ordered pair a b, OR a b, NOT (a b), NOT OR a b, NOT a NOT b, (a b) (32 000 programs quick; thorough adds three depth-2 shapes x 4 third atoms, 145 000 programs), each as SEARCH and UID SEARCH, on a plain 5-message view and on a view in which another session expunged two messages that the searching session has not been told about. Oracle: an independent evaluator over the raw message bytes (own header splitter, own sequence-set evaluation); SEARCH and UID SEARCH must correspond through the view\'s seq->UID map; no EXPUNGE may be sent during SEARCH. The metamorphic identities of the property follow because both sides of each identity are compared with the same evaluator.',
+    design_ref='DESIGN.md section 3 C13',
+    note='dict backend; US-ASCII messages, substring matching (charset conversion and MIME-decoded matching not modelled); nesting depth <= 2; hand-built mailbox rather than random messages (sampling is outside the family)',
+    technique='bounded-exhaustive enumeration of search programs executed on the implementation, compared with an independent evaluator')
 NA = {}
 
 def main():
